@@ -105,8 +105,8 @@ def run(c: Check):
     if dead:
         raise Undecided("socket laboratory: %d queries AND their controls got no reply at all (%s): the laboratory, not the "
                         "server, is at fault" % (len(dead), sorted(set(e["via"] for e in dead))))
-    if len(ev) < n_pkg or len(ev2) < n_sock + 9:
-        raise Undecided("harness recorded %d + %d cases, expected %d + %d" % (len(ev), len(ev2), n_pkg, n_sock + 9))
+    if len(ev) < n_pkg or len(ev2) < n_sock + 9 + 30:
+        raise Undecided("harness recorded %d + %d cases, expected %d + %d" % (len(ev), len(ev2), n_pkg, n_sock + 9 + 30))
     allev = ev + ev2
 
     # ---- vacuity: every class the property quantifies over must have been exercised
